@@ -529,6 +529,47 @@ def writers_of(ctx, adt_path):
     return out
 
 
+def caller_map(ctx):
+    """resolved local call graph, reversed: callee path -> set(caller paths); closures belong to their parent"""
+    callers = {}
+    for g in ctx.facts['fns']:
+        for body in iter_bodies(g):
+            for bb in body['blocks']:
+                t = bb['term']
+                if t['k'] == 'call':
+                    r = (t['fn'].get('fn') or {}).get('resolved') or {}
+                    if r.get('local') and r.get('path'):
+                        callers.setdefault(r['path'], set()).add(g['path'])
+        if g.get('closure_of'):
+            callers.setdefault(g['path'], set()).add(g['closure_of'])
+    return callers
+
+
+def public_roots(ctx, p, allowed=(), callers=None):
+    """The externally callable functions (pub or trait-impl methods) through which `p` can be reached;
+    a private helper is only ever entered through them.  Chains that pass through a function in
+    `allowed` end there (that function is analysed in its own right, helper inlined)."""
+    if callers is None:
+        callers = caller_map(ctx)
+    seen, work, roots = set(), [p], set()
+    while work:
+        x = work.pop()
+        if x in seen:
+            continue
+        seen.add(x)
+        fx = ctx.prog.fns.get(x)
+        if fx is None:
+            continue
+        if x in allowed:
+            continue
+        if fx['vis'] == 'pub' or fx.get('impl_trait'):
+            roots.add(x)
+            continue
+        for c in callers.get(x, ()):
+            work.append(c)
+    return roots
+
+
 def returns_mut_ref_to(ctx, adt_paths):
     """Functions whose signature returns a `&mut` to one of the ADTs (or anything containing one)."""
     def has(ty):
